@@ -189,7 +189,16 @@ pub fn check(case: &Case, w: usize) -> CheckResult {
     env.install_config(&cfg);
     // source file: the configuration itself (pretty), generated file: written by monorail
     let src_bytes = env.with_ports(&cfg).to_json().into_bytes();
-    std::fs::remove_file(env.config_path()).ok();
+    // the output path already holds an older, longer generated configuration (more targets then):
+    // `generate` replaces it
+    {
+        let mut older = cfg.clone();
+        for i in 0..40 {
+            older.targets.push(crate::model::TargetSpec::new(&format!("removed/since/then-{:02}", i)));
+        }
+        std::fs::write(env.config_path(), serde_json::to_string_pretty(&env.with_ports(&older).to_value()).unwrap()).ok();
+        env.write_file("Monorail.lock", b"{\"checksum\":\"0000000000000000000000000000000000000000000000000000000000000000\",\"padding\":\"an older and longer lockfile\"}\n");
+    }
     env.write_file("Monorail.src.json", &src_bytes);
     let mut beh = BTreeMap::new();
     for t in &cfg.targets {
